@@ -3,9 +3,12 @@ import GlmVerif.Props.C01
 import GlmVerif.Props.C02
 import GlmVerif.Props.C04
 import GlmVerif.Props.C05
+import GlmVerif.Props.C06
 import GlmVerif.Props.C07
 import GlmVerif.Props.C08
 import GlmVerif.Props.C09
 import GlmVerif.Props.C10
 import GlmVerif.Props.C12
+import GlmVerif.Props.C13
+import GlmVerif.Props.C14
 import GlmVerif.Props.C19
